@@ -108,3 +108,62 @@ Proof.
   split; [intros H; vm_compute in H; discriminate H|]. split; [vm_compute; reflexivity|].
   intros H. vm_compute in H. discriminate H.
 Qed.
+
+(* ---------- non-vacuity: the hypotheses of the positive theorems hold on scenario 1 ---------- *)
+
+Definition s1_before : state := emit (h_st (w_run s1_prefix)) (EBuildStart 1).
+Definition s1_rules : key -> rule := rules_of (h_rules (w_run s1_prefix)).
+Definition s1_env : key -> N := env_of (h_env (w_run s1_prefix)).
+Definition s1_base : nat := length (st_log s1_before).
+Definition s1_out : outcome := build_cancel s1_rules s1_env mixF ord_id 14 w_fuel s1_before 1.
+Definition s1_after : state := state_of s1_out.
+Definition s1_log : list event := build_log s1_after s1_base.
+
+(* returns_failure: the build is really cut short (second disjunct), 14 <= 14 events *)
+Example ex_returns_failure :
+  s1_out = Cycle s1_after [] /\ s1_out <> build s1_rules s1_env mixF ord_id w_fuel s1_before 1 /\
+  events_since s1_base s1_after = 14%nat.
+Proof. split; [vm_compute; reflexivity|]. split; [intros H; vm_compute in H; discriminate H | vm_compute; reflexivity]. Qed.
+
+(* cancel_after_end: 18 events < 19 *)
+Example ex_cancel_after_end :
+  events_of s1_base (build s1_rules s1_env mixF ord_id w_fuel s1_before 1) = 18%nat /\
+  build_cancel s1_rules s1_env mixF ord_id 19 w_fuel s1_before 1 = build s1_rules s1_env mixF ord_id w_fuel s1_before 1.
+Proof. split; vm_compute; reflexivity. Qed.
+
+(* persisted_only_completed / flags_exact: key 4 completed (its row changed), key 1 was in progress (row kept, flagged) *)
+Example ex_persisted_flags :
+  has_state s1_out s1_after /\
+  get (st_db s1_after) 4 <> get (st_db s1_before) 4 /\ completed_in s1_log 4 = true /\
+  created_in s1_log 1 = true /\ completed_in s1_log 1 = false /\
+  get (st_db s1_after) 1 = get (st_db s1_before) 1 /\
+  flagged s1_before 1 = false /\ flagged s1_after 1 = true /\ flagged s1_after 4 = false.
+Proof.
+  split; [right; exists []; vm_compute; reflexivity|].
+  split; [intros H; vm_compute in H; discriminate H|]. repeat split; vm_compute; reflexivity.
+Qed.
+
+(* flagged_reruns / forced_only_flagged: the next traversal on the same engine *)
+Definition s1_next : state := bump_epoch (emit s1_after (EBuildStart 1)).
+Example ex_flagged_reruns :
+  flagged s1_next 1 = true /\ res_builtAt (get (st_mem s1_next) 1) <> st_epoch s1_next /\ ~ In 1 (@nil key) /\
+  exists s', ensure s1_rules s1_env mixF ord_id w_fuel [] s1_next 1 = Ok s' /\
+             flagged s' 1 = false /\ result_of s' 1 = Some (888378, 0).
+Proof.
+  split; [vm_compute; reflexivity|]. split; [intros H; vm_compute in H; discriminate H|]. split; [intros []|].
+  exists (state_of (ensure s1_rules s1_env mixF ord_id w_fuel [] s1_next 1)).
+  repeat split; vm_compute; reflexivity.
+Qed.
+
+(* unflagged_runs_only_for_input: in the uncancelled second build key 1 is unflagged, built, valid, and runs *)
+Definition s1_full : state := state_of (ensure s1_rules s1_env mixF ord_id w_fuel [] (bump_epoch s1_before) 1).
+Example ex_unflagged :
+  flagged (bump_epoch s1_before) 1 = false /\ res_builtAt (get (st_mem (bump_epoch s1_before)) 1) <> 0 /\
+  r_sig (s1_rules 1) = res_sig (get (st_mem (bump_epoch s1_before)) 1) /\
+  valid s1_rules s1_env 1 (get (st_mem (bump_epoch s1_before)) 1) = true /\
+  In (ECreate 1) (build_log s1_full s1_base) /\ In (ENeed 1 InputRebuilt (Some 4)) (build_log s1_full s1_base).
+Proof.
+  split; [vm_compute; reflexivity|]. split; [intros H; vm_compute in H; discriminate H|].
+  split; [vm_compute; reflexivity|]. split; [vm_compute; reflexivity|].
+  split; vm_compute; repeat (first [left; reflexivity | right]).
+Qed.
